@@ -47,13 +47,13 @@ theorem HI_thread_debt (kinds : List Kind) (links : List (Nat × List Tgt)) (hwf
     · simp only [e, if_false, List.nil_append]
       exact (heldN_other nd nd' (aa n) a' i port th' e hths (hrd port e)).symm
 
-/-- the shape of thread `i`'s program at a `Write`: either the request echoes itself (`Write(nil, in)`, nothing
-derived), or the packet is the oldest linked and unwritten one of the request -/
+/-- the shape of thread `i`'s program at a `Write`: either the request packet itself is written (`Write(nil, in)`,
+or `Write(w, in)` when the action returned its input packet; nothing derived), or the packet is the oldest linked and unwritten one of the request -/
 theorem write_shape (lg : Log) (n : Nat) (nd : Node) (a : A) (nx : Nat) (hjb : JBm nd a nx) (i : Rid) (inbox : List Pkt)
     (w : Option Wid) (q : Pkt) (ops : List Op)
     (hg : getThread nd.threads i = some { inbox := inbox, pc := .emit (.write w q :: ops) })
     (hnl : NLt lg n i { inbox := inbox, pc := .emit (.write w q :: ops) } a) :
-    (w = none ∧ ops = [] ∧ (⟨q.id, i, .cells []⟩ : Req) ∈ a.reqs) ∨
+    (ops = [] ∧ (⟨q.id, i, .cells []⟩ : Req) ∈ a.reqs) ∨
     ∃ p cs rest, (⟨p, i, .cells cs⟩ : Req) ∈ a.reqs ∧ linkedIds cs = q.id :: rest ∧
       remFor (.emit (.write w q :: ops)) p = [] ∧ Unlogged lg q.id ∧ aget lg.owner q.id = some (qTag n) ∧
       q.id < nx ∧ (∀ x ∈ inbox, x.id ≠ q.id) ∧ (∀ y ∈ a.reqs, q.id ∉ remFor (.emit (.write w q :: ops)) y.p) := by
@@ -61,12 +61,8 @@ theorem write_shape (lg : Log) (n : Nat) (nd : Node) (a : A) (nx : Nat) (hjb : J
   rcases hsh with ⟨e0, e1, e2⟩ | ⟨rest, hl, hrem0⟩
   · left
     subst e0; subst e2
-    rcases hnl.nz _ hX rfl rfl with e | ⟨pk, grp, e, _⟩ | ⟨q', e, _⟩
-    · simp [remFor, remOps] at e
-    · cases e
-    · simp only [PC.emit.injEq, List.cons.injEq, Op.write.injEq, and_true] at e
-      refine ⟨e.1, rfl, ?_⟩
-      rw [e1]; exact hX
+    refine ⟨rfl, ?_⟩
+    rw [e1]; exact hX
   · right
     have hr : ReqA lg n (.emit (.write w q :: ops)) ⟨p, i, .cells cs⟩ := by
       rcases hnl.req _ hX rfl with hr | ⟨v, e1, _, _⟩
@@ -109,9 +105,11 @@ theorem nlt_write_rej (lg lg' : Log) (n : Nat) (i : Rid) (a : A) (inbox : List P
   have hko : q.id ∈ openIds cs := linkedIds_sub_open cs q.id (by rw [hl]; simp)
   exact nlt_fill lg lg' n i inbox _ (nextPc ops) a q.id (.pay q.pay) h
     (fun p' => by rw [remFor_next]; rfl) (fun _ _ e => by cases e)
-    (fun q' e => by
-      simp only [PC.emit.injEq, List.cons.injEq, Op.write.injEq] at e
-      exact Or.inr (by rw [← e.1.2])) (wOK_next _ ops h.wb) hnd p cs hX hko hrem0 (tr_of_ext lg lg' q.id hx) hki
+    (fun w' q' e => by
+      rcases e with e | e
+      · simp only [PC.emit.injEq, List.cons.injEq, Op.write.injEq] at e
+        exact Or.inr (by rw [← e.1.2])
+      · simp at e) (wOK_next _ ops h.wb) hnd p cs hX hko hrem0 (tr_of_ext lg lg' q.id hx) hki
     (fun y hy _ _ => hkr y hy) ho (ra_echo lg' q.id q.pay hecho)
 
 end Uniflow.FlowN
